@@ -68,9 +68,7 @@ def trigNames (st : St) (op : Op) : List String :=
   (if trigCellsName st op then ["cells-name"] else []) ++
   (if trigDoubleSpec st op then ["double-spec"] else []) ++
   (if trigDirtyDelete st op then ["del-space"] else []) ++
-  (if trigUpdateOnto st op then ["update-onto-referenced"] else []) ++
-  (if trigClosedNew st op then ["closed-model-new-spec"] else []) ++
-  (if trigPathAlias st op then ["path-alias"] else [])
+  (if trigUpdateOnto st op then ["update-onto-referenced"] else [])
 
 def parseOp (toks : List String) : Option Op :=
   match toks with
